@@ -340,7 +340,7 @@ def _curves(ctx):
     for ck, keys in ((ci, ("d_1", "d_2")), (cj, ("d_RAJ",))):
         v = prog.lookup_method(ck, "_validate")
         for k in keys:
-            g = [s for s in walk_function(v.node) if isinstance(s, ast.If) and norm_text(s.test) == "self._obj.%s >= 0" % k
+            g = [s for s in walk_function(v.node) if isinstance(s, ast.If) and _same_cmp(s.test, "self._obj.%s >= 0" % k)
                  and isinstance(s.body[-1], ast.Raise)]
             if g:
                 ctx.holds(v, g[0], "%s: %s >= 0 is rejected: finite branches are strictly decreasing" % (ck.name, k))
@@ -427,8 +427,21 @@ def _pram(ctx):
         ctx.holds(f, masks[1][1], "k masks %s / %s partition the hystereses" % (norm_text(masks[0][0]), norm_text(masks[1][0])))
     else:
         ctx.violated(f, masks[1][1], "k masks %s / %s do not partition on S_m vs 0" % (norm_text(masks[0][0]), norm_text(masks[1][0])))
-    pos = [m for m in masks if isinstance(m[0].ops[0], (ast.GtE, ast.Gt))]
-    neg = [m for m in masks if isinstance(m[0].ops[0], (ast.Lt, ast.LtE))]
+    from ..astutil import oriented
+
+    def selects_positive(m_):
+        o_ = oriented(m_)                        # L < R  or  L <= R
+        if not (isinstance(o_, ast.Compare) and len(o_.ops) == 1 and isinstance(o_.ops[0], (ast.Lt, ast.LtE))):
+            return None
+        if const_value(o_.left) in (0, 0.0) and _col(o_.comparators[0]) == "S_m":
+            return True                          # 0 <(=) S_m
+        if const_value(o_.comparators[0]) in (0, 0.0) and _col(o_.left) == "S_m":
+            return False                         # S_m <(=) 0
+        return None
+    pos = [m for m in masks if selects_positive(m[0]) is True]
+    neg = [m for m in masks if selects_positive(m[0]) is False]
+    if len(pos) != 1 or len(neg) != 1:
+        raise AnalysisError("P_RAM._compute_values: the two mean-stress masks were not understood")
     try:
         kp = to_nf(pos[0][1].value, atom=atom)
         kn = to_nf(neg[0][1].value, atom=atom)
@@ -975,7 +988,12 @@ def _half(ctx):
             if isinstance(n_, ast.FunctionDef) and any(x_ is s for x_ in ast.walk(n_)):
                 owner = n_                       # innermost function containing the statement
         cmp_ = s.value.args[0]
-        ref = cmp_.comparators[0] if isinstance(cmp_, ast.Compare) and len(cmp_.ops) == 1 else None
+        ref = None
+        if isinstance(cmp_, ast.Compare) and len(cmp_.ops) == 1:
+            sides = [cmp_.left, cmp_.comparators[0]]
+            col = [x_ for x_ in sides if "P_RAM" in {const_value(y_) for y_ in ast.walk(x_) if isinstance(y_, ast.Constant)}]
+            other = [x_ for x_ in sides if x_ not in col]
+            ref = other[0] if len(col) == 1 and len(other) == 1 else None
         if ref is None:
             return norm_text(inline_single_defs(owner, s.value))
         marked = parse_expr(norm_text(s.value).replace(norm_text(ref), "REF"))
